@@ -40,6 +40,10 @@ FLAGS = {
     "multi_handler": True,   # C01 arena overflow (fixed 5d577e5): several labels in one catch block
     "wide_shift": True,      # F-C03-e (fixed 57b8d9d): shift counts outside 0..63, negative << operands
     "goto": True,
+    "goto_args": False,      # F-C03-h (reported, not fixed yet): `goto label a b` hands the label name to the first parameter
+    "floats": True,          # float literals as opaque printed text (f587111 fixed their decimal text)
+    "continue_in_switch": True,   # F-C03-f (fixed a96d67a): `continue` directly in a switch body inside a loop was rejected
+    "jump_in_catch": True,        # F-C03-g (fixed a96d67a): `break` / `continue` directly in a catch block inside a loop were rejected
 }
 
 PRINT_ORDER = ["o", "r"]
@@ -369,6 +373,135 @@ def string_family(rng, tier):
     return progs
 
 
+def float_family(rng, tier):
+    """float literals are opaque: printed ("%.3f" of the float), negated (folded at compile time on a
+    literal, at run time on a variable), concatenated, copied, passed, returned, tested for truth"""
+    V = G.var
+    progs = []
+    for rep in range(2 if tier == "quick" else 12):
+        fs = rng.sample(G.FLOATS, 8)
+        body = [st(("pr", [L.flt(x) for x in fs])), st(("pr", [("neg", L.flt(x)) for x in fs]))]
+        for x in fs:
+            f = L.flt(x)
+            body += [st(("set", L_("l", 9), f)),
+                     st(("pr", [V("l", 9), ("neg", V("l", 9)), ("b", "add", ("s", "<"), V("l", 9)), ("b", "add", V("l", 9), ("s", ">")),
+                                ("not", f), ("not", V("l", 9)), ("and", f, ("i", 1)), ("or", ("i", 0), V("l", 9)), ("size", V("l", 9)),
+                                ("b", "eq", V("l", 9), ("nil",))])),
+                     st(("ife", f, ("pr", [("s", "t")]), ("pr", [("s", "f")]))),
+                     st(("set", L_("l", 6, [("i", 1)]), ("neg", f))), st(("th", 1, [("x", V("l", 6), ("i", 1)), f]))]
+        body += [st(("set", L_("v", 0), L.flt(fs[0]))), st(("set", L_("l", 1), ("call", 2, [L.flt(fs[1])]))), st(("pr", [V("l", 1)])),
+                 st(("sw", L.flt("1.5"), [("cs", "1.500"), ("st", ("pr", [("s", "label 1.500")])), ("st", ("brk",)), ("cd",), ("st", ("pr", [("s", "default")]))])),
+                 st(("end1", ("neg", L.flt(fs[2]))))]
+        progs.append(("floats", [lab(0)] + body + [lab(1, [("l", 10), ("l", 11)]), st(("pr", [("s", "thread"), V("l", 10), V("l", 11)])), st(("end0",)),
+                                                    lab(2, [("l", 10)]), st(("end1", ("neg", V("l", 10))))]))
+    return progs
+
+
+def manyargs_family(rng, tier):
+    """more than 5 arguments switch to the counted opcodes (OP_EXEC_CMD_COUNT1, OP_EXEC_METHOD_COUNT1)"""
+    V = G.var
+    progs = []
+    for rep in range(2 if tier == "quick" else 12):
+        np = rng.randrange(4, 9)
+        params = [("l", 10 + k) for k in range(np)]
+        summ = ("i", 0)
+        for k in range(np):
+            summ = ("b", "add", ("b", "mul", summ, ("i", 3)), V("l", 10 + k))
+        body = []
+        for na in sorted(set([0, 1, 4, 5, 6, np - 1, np, np + 1])):
+            args = [G.I(rng.choice([1, 2, 5, 7, -3, 256, 4294967296])) for _ in range(na)]
+            body.append(st(("pr", [("call", 2, args[:np])])) if na >= np else st(("th", 1, args)))
+            body.append(st(("th", 1, args)))
+            body.append(st(("pr", args + [("s", "|")])))
+        body.append(st(("set", L_("l", 8), ("carr", [("i", k) for k in range(1, rng.randrange(6, 14))]))))
+        body.append(st(("pr", [("size", V("l", 8)), ("x", V("l", 8), ("size", V("l", 8)))])))
+        progs.append(("many-args", [lab(0)] + body + [st(("end0",)),
+                                    lab(1, params), st(("pr", [V("l", 10 + k) for k in range(np)])), st(("end0",)),
+                                    lab(2, params), st(("end1", summ))]))
+    return progs
+
+
+def misc_family(rng, tier):
+    """hand-written programs: arrays kept alive by an alias, emptied arrays, self assignment, nested and
+    negative/large keys, constant arrays of constant arrays, waitthread inside conditions and operands
+    (the operand stack survives the suspension), end from inside a loop inside a switch"""
+    V = G.var
+    I = G.I
+
+    def lv(sc, x, idx=()):
+        return ("lv", sc, x, list(idx))
+
+    def pr(*a):
+        return ("pr", list(a))
+
+    def S(t):
+        return ("s", t)
+
+    def X(a, i):
+        return ("x", a, i)
+    progs = {
+        "keepalive": [lab(0), st(("set", lv("l", 6, [I(1)]), I(1))), st(("set", lv("l", 7), V("l", 6))), st(("set", lv("l", 6), ("nil",))),
+                      st(pr(X(V("l", 7), I(1)), V("l", 6), ("size", V("l", 7)))), st(("end0",))],
+        "emptyarr": [lab(0), st(("set", lv("l", 6, [I(1)]), I(1))), st(("set", lv("l", 6, [I(1)]), ("nil",))), st(pr(("size", V("l", 6)), X(V("l", 6), I(1)))),
+                     st(("set", lv("l", 6, [I(2)]), I(5))), st(pr(("size", V("l", 6)))), st(("end0",))],
+        "selfassign": [lab(0), st(("set", lv("l", 0), I(5))), st(("set", lv("l", 0), V("l", 0))), st(("set", lv("l", 1), V("l", 0))),
+                       st(("set", lv("l", 0), ("b", "add", V("l", 0), V("l", 0)))), st(pr(V("l", 0), V("l", 1))),
+                       st(("set", lv("l", 6, [I(1)]), I(1))), st(("set", lv("l", 6), V("l", 6))), st(pr(X(V("l", 6), I(1)))), st(("end0",))],
+        "overwrite-elem": [lab(0), st(("set", lv("l", 6, [I(1), I(2)]), I(7))), st(("set", lv("l", 7), X(V("l", 6), I(1)))), st(("set", lv("l", 6, [I(1)]), I(3))),
+                           st(pr(X(V("l", 7), I(2)), X(V("l", 6), I(1)))), st(("end0",))],
+        "array-outlives-thread": [lab(0), st(("th", 1, [])), st(pr(X(V("v", 6), I(1)), ("size", V("v", 6)))), st(("set", lv("v", 6, [I(2)]), I(9))),
+                                  st(pr(("size", V("v", 6)))), st(("end0",)), lab(1), st(("set", lv("l", 6, [I(1)]), I(4))), st(("set", lv("v", 6), V("l", 6))), st(("end0",))],
+        "string-keys": [lab(0), st(("set", lv("l", 6, [S("a")]), I(1))), st(("set", lv("l", 6, [S("b")]), I(2))),
+                        st(("set", lv("l", 6, [S("a")]), ("b", "add", X(V("l", 6), S("a")), X(V("l", 6), S("b"))))),
+                        st(pr(X(V("l", 6), S("a")), ("size", V("l", 6)), X(V("l", 6), S("zz")))), st(("end0",))],
+        "odd-keys": [lab(0), st(("set", lv("l", 6, [I(-1)]), I(1))), st(("set", lv("l", 6, [I(0)]), I(2))), st(("set", lv("l", 6, [I(4294967296)]), I(3))),
+                     st(pr(X(V("l", 6), I(-1)), X(V("l", 6), I(0)), X(V("l", 6), I(4294967296)), X(V("l", 6), I(1)), ("size", V("l", 6)))), st(("end0",))],
+        "nested-const-arrays": [lab(0), st(("set", lv("l", 8), ("carr", [("carr", [I(1), I(2)]), ("carr", [I(3), I(4)])]))),
+                                st(pr(X(X(V("l", 8), I(2)), I(1)), ("size", V("l", 8)), ("size", X(V("l", 8), I(1))))),
+                                st(("set", lv("l", 8, [I(1), I(2)]), I(9))), st(pr(X(X(V("l", 8), I(1)), I(2)))), st(("end0",))],
+        "waitthread-in-operands": [lab(0), st(("set", lv("l", 0), I(0))),
+                                   st(("while", ("b", "lt", ("call", 1, [V("l", 0)]), I(3)), ("blk", [("inc", lv("l", 0)), pr(V("l", 0))]))),
+                                   st(("if", ("and", ("call", 1, [I(0)]), ("call", 1, [I(5)])), pr(S("no")))),
+                                   st(pr(("b", "add", ("call", 1, [I(1)]), ("b", "mul", ("call", 1, [I(2)]), ("call", 1, [I(3)]))))),
+                                   st(("end1", ("call", 1, [I(9)]))), lab(1, [("l", 10)]), st(pr(S("f"), V("l", 10))), st(("end1", V("l", 10)))],
+        "end-in-loop-in-switch": [lab(0), st(("set", lv("l", 1), ("call", 1, [I(2)]))), st(pr(V("l", 1))), st(("end0",)), lab(1, [("l", 10)]),
+                                  st(("for", ("set", lv("l", 20), I(0)), ("b", "lt", V("l", 20), I(5)), ("inc", lv("l", 20)),
+                                      ("sw", V("l", 20), [("ci", 0), ("st", ("cont",)), ("cd",),
+                                                          ("st", ("if", ("b", "eq", V("l", 20), V("l", 10)), ("end1", ("b", "mul", V("l", 20), I(50)))))]))),
+                                  st(("end1", I(-1)))],
+    }
+    return [("misc:" + k, v) for k, v in sorted(progs.items())]
+
+
+def gotoargs_family(rng, tier):
+    """goto with arguments: the label's parameters take them (F-C03-h: the engine shifted them by one)"""
+    if not FLAGS["goto_args"]:
+        return []
+    V = G.var
+    progs = []
+    for rep in range(2 if tier == "quick" else 8):
+        a, b = rng.sample([5, 6, 7, 256, 4294967296], 2)
+        progs.append(("goto-args", [
+            lab(0), st(("set", L_("l", 0), ("i", 0))),
+            st(("goto", 54, [("i", a), ("b", "add", ("i", b), ("i", 1))])),
+            st(("pr", [("s", "skipped")])),
+            lab(54, [("l", 10), ("l", 11), ("l", 12)]),
+            st(("pr", [V("l", 10), V("l", 11), V("l", 12)])),
+            st(("inc", L_("l", 0))),
+            st(("if", ("b", "lt", V("l", 0), ("i", 3)), ("goto", 54, [V("l", 0)]))),
+            st(("th", 1, [("i", b)])),
+            st(("end1", V("l", 10))),
+            lab(1, [("l", 10)]),
+            st(("for", ("set", L_("l", 20), ("i", 0)), ("b", "lt", V("l", 20), ("i", 3)), ("inc", L_("l", 20)),
+                ("if", ("b", "eq", V("l", 20), ("i", 1)), ("goto", 55, [("s", "from loop"), V("l", 20), V("l", 10)])))),
+            st(("end0",)),
+            lab(55, [("l", 11), ("l", 12), ("l", 13)]),
+            st(("pr", [V("l", 11), V("l", 12), V("l", 13)])),
+            st(("end0",)),
+        ]))
+    return progs
+
+
 def goto_family(rng, tier):
     V = G.var
     progs = []
@@ -394,12 +527,13 @@ def goto_family(rng, tier):
 
 
 def random_family(rng, tier):
-    n = 260 if tier == "quick" else 5000
+    n = 1000 if tier == "quick" else 12000
     progs = []
     for i in range(n):
         big = rng.random() < 0.3
         g = G.Gen(rng, FLAGS, max_stmts=rng.choice([40, 60, 80]) if not big else 110, max_depth=rng.choice([3, 4, 5, 6]))
-        progs.append(("random", g.gen_program(), g.cov))
+        ast = g.gen_program()
+        progs.append(("random", ast, g.cov, g.host_args))
     return progs
 
 
@@ -550,13 +684,34 @@ def evaluate(runner, progs, rng, k):
 
 
 def shrink(runner, p, kind, layout, budget=40):
-    """smallest program (by statement removal) that still shows the same kind of disagreement"""
+    """smallest program (by statement removal) that still shows the same kind of disagreement;
+    every candidate runs in its own engine process (a hang costs one watchdog period)"""
+    import concurrent.futures
     cur = p.ast
     sd = int(layout.split("-")[1]) if layout.startswith("layout-") else None
+    slow = kind in ("timeout", "crash")
     rounds = 0
+
+    def one(q, exp):
+        srcs = [("plain", L.print_program(q.ast, plain=True))]
+        if sd is not None:
+            srcs.append((layout, L.print_program(q.ast, random.Random(sd))))
+        c = harness_case(q, srcs)
+        rc, o, e = vlib.sh([runner.exe], inp=c.text(), env=vlib.ASAN_ENV, timeout=20)
+        outs, _ = vlib.split_output(o)
+        lines = outs.get(q.id, [])
+        if rc != 0 or not lines or lines[-1] != "end":
+            k = "timeout" if rc in (124, -9) else "crash"
+            return k == kind
+        for blk in split_blocks(lines[:-1]):
+            j = judge(exp, blk)
+            if j and j[0] == kind:
+                return True
+        return False
+
     while rounds < budget:
         rounds += 1
-        cands = L.shrink_candidates(cur)[:120]
+        cands = L.shrink_candidates(cur)[:48 if slow else 160]
         if not cands:
             break
         progs = [Prog("s%d" % i, "shrink", c, p.args) for i, c in enumerate(cands)]
@@ -564,28 +719,11 @@ def shrink(runner, p, kind, layout, budget=40):
         live = [q for q in progs if isinstance(mod[q.id], list)]
         if not live:
             break
-        srcs = {}
-        for q in live:
-            srcs[q.id] = [("plain", L.print_program(q.ast, plain=True))]
-            if sd is not None:
-                srcs[q.id].append((layout, L.print_program(q.ast, random.Random(sd))))
-        eng = runner.engine(live, srcs)
         found = None
-        for q in live:
-            e = eng[q.id]
-            if isinstance(e, dict):
-                c = e["crash"]
-                if not c.get("skipped") and kind == ("timeout" if c.get("timeout") else "crash"):
+        with concurrent.futures.ThreadPoolExecutor(vlib.NPROC) as ex:
+            for q, hit in zip(live, ex.map(lambda q: one(q, mod[q.id]), live)):
+                if hit and found is None:
                     found = q
-                    break
-                continue
-            for blk in e:
-                j = judge(mod[q.id], blk)
-                if j and j[0] == kind:
-                    found = q
-                    break
-            if found:
-                break
         if not found:
             break
         cur = found.ast
@@ -611,13 +749,14 @@ def gen(tier, seed):
     lits, vals = lit_family(rng, tier)
     fams += [(o, a, None) for o, a in lits]
     for fam in (ring_family, alias_family, nil_family, scope_family, trycatch_family, switch_family, operator_family,
-                string_family, goto_family):
+                string_family, float_family, manyargs_family, misc_family, goto_family, gotoargs_family):
         fams += [(o, a, None) for o, a in fam(rng, tier)]
     fams += random_family(rng, tier)
     progs = []
     cov = {}
-    for i, (o, a, c) in enumerate(fams):
-        progs.append(Prog("p%d" % i, o, a))
+    for i, fam in enumerate(fams):
+        o, a, c = fam[0], fam[1], fam[2]
+        progs.append(Prog("p%d" % i, o, a, fam[3] if len(fam) > 3 else ()))
         if c:
             for k, v in c.items():
                 cov[k] = cov.get(k, 0) + v
@@ -644,15 +783,18 @@ def check(res, tier, seed):
         "bare / negated / as operand / as condition; 131 x N leading filler statements (N = 0..130, every position of the compiler's 100-entry "
         "previous-opcode ring) before `if (!x) else`, `while (!x)`, `do while (!x)`, `!literal`, `-literal`; aliasing, NIL, scope, nested try/catch, "
         "switch-label (64-bit and negative labels, deep nesting), operator (all 16 binary operators on boundary operands, folded and run-time; "
-        "random parenthesis-free trees for precedence/associativity), string and goto families; programs of the typed grammar generator "
+        "random parenthesis-free trees for precedence/associativity), string, float-literal (opaque printed text) and goto families; "
+        "constant integer expressions whose executed opcodes and operands (hook H4) are compared with the compiler model of coq/C03/Compile.v; programs of the typed grammar generator "
         "(<= ~110 statements, nesting <= 6, up to 3 functions, recursion, threads). Every program: the plain layout + random layouts "
         "(indentation, brace placement, ;, comments, redundant parentheses, CRLF, line continuation, bare-word strings) + expanded compound assignments + "
         "run-time spellings of constant-folded operands. non-trivial = distinct (program, observation) with >= 3 printed lines. ")
     res.assumptions += [
-        "agreement of the reference evaluator (coq/C03/Sem.v) with the engine is established by differential execution on the generated programs only (no compile-correctness theorem); "
-        "proved: the integer-literal codec round-trip over the tables regenerated from the sources, the literal path through the parse tree, constant folding of unary minus, determinism (the evaluator is a function)",
+        "agreement of the reference evaluator (coq/C03/Sem.v) with the engine is established by differential execution on the generated programs only; "
+        "proved: the integer-literal codec round-trip over the tables regenerated from the sources, the literal and case-label paths through the parse tree, constant folding of unary minus, "
+        "fuel independence and determinism of the evaluator, and compile-correctness of the constant integer expression fragment for the compiler/VM MODEL of coq/C03/Compile.v "
+        "(that model is tied to the real compiler by comparing executed opcodes and operands through hook H4, by sampling)",
         "error-free core: programs for which the evaluator has no result (type errors, division by zero, unhandled throw, fuel) are dropped; observed rate reported as dropped_stuck",
-        "static rules taken from the compiler as written: `continue`/`break` directly inside a switch body (continue) or a catch block (both) are rejected; labels for goto/thread are top-level",
+        "static rules: break needs an enclosing loop or switch, continue an enclosing loop; labels for goto/thread are top-level; case labels of one switch are distinct as strings",
         "waitthread runs its callee in a new group, thread in the caller's group (as the engine does); threads started with `thread` do not call waitthread (scheduler order is C05/C06's subject)",
         "integer literals 0 <= v < 2^63 (the lexer saturates larger ones with strtoll); array keys are integers or non-numeric strings",
         "injected clock (hook H1); one fresh engine per program source; observation: captured println text, value handed to ExecuteThread's parms, level.v0..7 game.v0..3 parm.v0..1",
@@ -682,6 +824,10 @@ def check(res, tier, seed):
             vbad.append((v, r))
     # the literal codec model against the engine
     lit_bad = literal_check(runner, vals)
+    # the compiler/VM model of the constant-expression fragment against the real compiler
+    cmp_bad, cmp_ok, cmp_skipped = compile_check(runner, rng, tier)
+    res.cov["compile_fragment_expressions_agreeing"] = cmp_ok
+    res.cov["compile_fragment_skipped_division_by_zero"] = cmp_skipped
 
     # statistics
     by_origin, stuck, ok, nontriv, sources = {}, 0, 0, set(), 0
@@ -700,7 +846,7 @@ def check(res, tier, seed):
             if out.count("\\n") >= 3:
                 nontriv.add(hashlib.sha256(repr(r["obs"]).encode()).hexdigest())
     vok = sum(1 for _, v in vs if vres[v.id]["status"] == "ok")
-    res.cov["evaluations"] += sources + 2 * vok + len(vals)
+    res.cov["evaluations"] += sources + 2 * vok + len(vals) + 2 * cmp_ok
     res.cov["distinct_nontrivial"] += len(nontriv)
     res.cov["programs"] = len(progs)
     res.cov["programs_agreeing"] = ok
@@ -746,7 +892,11 @@ def check(res, tier, seed):
                "replay_cmd": "./check C03 --replay <this file>"}
         res.violation(rec)
         concrete = True
-    for rec in lit_bad[:2]:
+    for rec in lit_bad[:2] + cmp_bad[:2]:
+        if rec.get("kind") == "framework":
+            res.violation(rec, no_input=True)
+            continue
+        rec.setdefault("program", "")
         res.violation(rec)
         concrete = True
     fw = [p for p in progs if results[p.id]["status"] == "framework"]
@@ -799,6 +949,70 @@ def literal_check(runner, vals):
                             "expected": ["o %d %d\\n" % (v, -v)]})
                 break
     return bad
+
+
+def rand_const_expr(rng, d):
+    r = rng.random()
+    if d <= 0 or r < 0.2:
+        v = rng.choice(G.BOUNDARY + G.SMALL + [rng.randrange(0, 2 ** rng.choice([8, 16, 24, 32, 63]))])
+        return ("i", v)
+    if r < 0.35:
+        return ("neg", rand_const_expr(rng, d - 1 if rng.random() < 0.5 else 0))
+    if r < 0.42:
+        return ("cpl", rand_const_expr(rng, d - 1))
+    op = rng.choice(list(L.OPS))
+    b = rand_const_expr(rng, d - 1)
+    if op in ("shl", "shr") and rng.random() < 0.8:
+        b = ("i", rng.choice([0, 1, 2, 8, 31, 32, 63, 64, 65]))
+    if op in ("div", "mod") and rng.random() < 0.8:
+        b = G.I(rng.choice([1, 2, 3, -1, -2, 255, 2 ** 32, 2 ** 63 - 1]))
+    return ("b", op, rand_const_expr(rng, d - 1), b)
+
+
+def compile_check(runner, rng, tier):
+    """the compiler/VM model of coq/C03/Compile.v against the real compiler: the executed opcodes
+    (H4 step hook) of `level.v0 = <constant integer expression>` and the resulting value"""
+    n = 400 if tier == "quick" else 6000
+    exprs = [rand_const_expr(rng, rng.choice([1, 2, 3, 4, 5])) for _ in range(n)]
+    exprs += [("neg", ("i", v)) for v in G.BOUNDARY] + [("neg", ("neg", ("i", v))) for v in G.BOUNDARY]
+    dcases, hcases = [], []
+    for i, e in enumerate(exprs):
+        o = []
+        L.ser_expr(e, o)
+        dcases.append(Case("c%d" % i, "", ["cmp " + " ".join(o)], "compile"))
+        prog = [("lab", 0, []), ("st", ("set", L_("v", 0), e)), ("st", ("end0",))]
+        srcs = [L.print_program(prog, plain=True), L.print_program(prog, random.Random(rng.randrange(1 << 30)))]
+        hcases.append(Case("c%d" % i, "", ["T " + x.encode("latin-1").hex() for x in srcs], "compile"))
+    bad, agree, skipped = [], 0, 0
+    for j in range(0, len(dcases), 500):
+        mo, mc = vlib.run_resilient(runner.drv, ["model"], dcases[j:j + 500], timeout=300)
+        ho, hc = vlib.run_resilient(runner.exe, [], hcases[j:j + 500], env=vlib.ASAN_ENV, timeout=600)
+        for k in range(j, min(j + 500, len(dcases))):
+            cid = dcases[k].id
+            m = mo.get(cid)
+            h = ho.get(cid)
+            src = L.print_program([("lab", 0, []), ("st", ("set", L_("v", 0), exprs[k])), ("st", ("end0",))], plain=True)
+            if m is None or len(m) < 3 or not m[0].startswith("t"):
+                bad.append({"property": CID, "kind": "framework", "why": "driver gave no code for a constant expression: %s" % (m,), "sources": [src]})
+                continue
+            if m[1] == "v L0 none":
+                skipped += 1
+                continue
+            if m[2] != "vm " + m[1][5:]:
+                bad.append({"property": CID, "kind": "framework", "why": "the VM model disagrees with the expression's value (theorem instance): %s" % (m,), "sources": [src]})
+                continue
+            if h is None:
+                bad.append({"property": CID, "kind": "crash", "why": "the engine died on a constant expression: " + str(hc.get(cid, {}))[:600], "sources": [src]})
+                continue
+            for b in range(0, len(h), 2):
+                blk = h[b:b + 2]
+                if blk != m[:2]:
+                    bad.append({"property": CID, "kind": "compile-model-mismatch",
+                                "why": "compiler/VM model: %s | real compiler and VM: %s" % (m[:2], blk), "sources": [src]})
+                    break
+            else:
+                agree += 1
+    return bad, agree, skipped
 
 
 def replay(path):
